@@ -39,23 +39,29 @@ def load_bytes(IndxIO, data, path):
         return IndxIO.load(f)
 
 
-def file_event(IndxIO, tid, arity, common, ents, wd, index=None, cuts=True):
+def file_event(IndxIO, tid, arity, common, ents, wd, index=None, cuts=True, unique=False):
     """save(ents) -> bytes; load(bytes); load(bytes[:k]) for every k."""
     import numpy as np
-    path = os.path.join(wd, "f%d.indx" % (tid % 64))
+    path = os.path.join(wd, ("u%d.indx" % tid) if unique else ("f%d.indx" % (tid % 64)))
     entries = {}
+    np_keys = tid % 5 == 2       # coordinate tuples made of NumPy scalars of the narrowest type (tuple(row) of a typed table)
+
+    def key(c):
+        if not np_keys:
+            return tuple(c)
+        return tuple((np.uint8 if v < 2 ** 8 else np.uint16 if v < 2 ** 16 else np.uint32 if v < 2 ** 32 else np.uint64)(v) for v in c)
     for j, (c, r) in enumerate(ents):
         if (tid + j) % 3 == 0 and len(r):
             # a non-contiguous row-id array: every second element of a padded buffer (a column of a 2-D table)
             base = np.full(2 * len(r), 0xDEADBEEF, dtype=np.uint32)
             base[0::2] = r
-            entries[tuple(c)] = base[0::2]
+            entries[key(c)] = base[0::2]
         elif (tid + j) % 3 == 1 and len(r):
             ro = np.array(r, dtype=np.uint32)
             ro.setflags(write=False)                       # a read-only array (e.g. memory-mapped)
-            entries[tuple(c)] = ro
+            entries[key(c)] = ro
         else:
-            entries[tuple(c)] = np.array(r, dtype=np.uint32)
+            entries[key(c)] = np.array(r, dtype=np.uint32)
     ev = {"tid": tid, "kind": "file", "x": xjson(arity, common, ents), "rws": 4, "saveexc": False, "bytes": [],
           "loaded": BAD, "accepted": [], "rebuilt": True}
     try:
@@ -90,6 +96,22 @@ def file_event(IndxIO, tid, arity, common, ents, wd, index=None, cuts=True):
             except Exception:
                 pass
     return ev
+
+
+def concurrent_file_events(IndxIO, cases, wd, tid0, threads=4):
+    """the same saves issued from several threads at once (1 microsecond switch interval): each file must still be the
+    layout of ITS data. cases: list of (arity, common, ents); returns file events without the truncation sweep."""
+    import sys
+    from multiprocessing.pool import ThreadPool
+    old = sys.getswitchinterval()
+    sys.setswitchinterval(1e-6)
+    try:
+        with ThreadPool(threads) as pool:
+            evs = pool.map(lambda q: file_event(IndxIO, tid0 + q[0], q[1][0], q[1][1], q[1][2], wd, cuts=False, unique=True),
+                           list(enumerate(cases, 1)))
+    finally:
+        sys.setswitchinterval(old)
+    return evs
 
 
 def read_event(IndxIO, tid, case, data, wd):
